@@ -1,5 +1,5 @@
 ------------------------------ MODULE LpcC10 ------------------------------
-(* Case grids for C10: blocks of exact rational samples for lpc.kautocor / lpc.kcovar at every *)
+(* Case grid operators for C10 (the grids themselves: LpcC10Q.tla, LpcC10T.tla): blocks of exact rational samples for lpc.kautocor / lpc.kcovar at every *)
 (* order, autocorrelation vectors given directly (with zero extension, indefinite and singular *)
 (* ones) and generated from reflection coefficients in (-1, 1).                                *)
 EXTENDS Lpc
@@ -26,14 +26,6 @@ KPool     == {Q(1, 2), Q(-1, 2), Q(1, 3), Q(-1, 3), Q(1, 4), R(0)}
 KsOf(P, lens) == {s \in UNION {[1..n -> P] : n \in lens} : s[Len(s)] # RZero}
 KlOf(P, lens) == {CaseKl(s) : s \in KsOf(P, lens)}
 
-C10Quick    == KaOf(Blocks({-1, 0, 1, 2}, {2, 3, 4}), 3) \cup KaOf(RatBlocks, 2)
-               \cup KcOf(Blocks({-1, 0, 1, 2}, {2, 3, 4}), 3) \cup KcOf(RatBlocks, 2)
-               \cup LdOf(RVecs, 4) \cup LdOf(RVecsRat, 3) \cup KlOf(KPool, {1, 2, 3})
-\* order 4 only on samples in {-1, 0, 1}: the definition layer squares residuals whose denominator is the
-\* determinant of the system, and 32-bit integers end at determinants of about 46000
-ThBlocks    == Blocks({-2, -1, 0, 1, 2}, {2, 3, 4}) \cup Blocks({-1, 1, 2}, {5})
-SmBlocks    == Blocks({-1, 0, 1}, {4, 5})
-C10Thorough == KaOf(ThBlocks, 3) \cup KaOf(SmBlocks, 4) \cup KaOf(RatBlocks, 2)
-               \cup KcOf(ThBlocks, 3) \cup KcOf(SmBlocks, 4) \cup KcOf(RatBlocks, 2)
-               \cup LdOf(RVecs, 5) \cup LdOf(RVecsRat, 3) \cup KlOf(KPool, {1, 2, 3, 4})
+\* the tier grids are single definitions in LpcC10Q / LpcC10T (TLC builds every parameterless definition of
+\* every loaded module at start-up, so the big sets live in the module of the tier that uses them)
 ===========================================================================
